@@ -936,8 +936,9 @@ void deindent_line(token  * line) {
 				line->child->prev = NULL;
 				line->child->tail = t->tail;
 
+				// (line->start may still include markers that were stripped earlier)
+				line->len -= line->child->start - line->start;
 				line->start = line->child->start;
-				line->len -= t->len;
 			}
 
 			token_free(t);
